@@ -28,6 +28,8 @@ type faultFS struct {
 
 var ffs = &faultFS{local: file.NewLocalImplementation()}
 
+var c15seq int
+
 var errFault = errors.New("injected file-operation failure")
 
 func (f *faultFS) step(name string) error {
@@ -162,7 +164,10 @@ func runC15(c string) string {
 		st = exec.VerifNewMemoryStore()
 	} else {
 		var err error
-		dir, err = os.MkdirTemp("", "c15store")
+		// a fresh, never reused name (MkdirTemp draws 32-bit random names, which do repeat over 10^5 cases)
+		c15seq++
+		dir = fmt.Sprintf("%s/c15store-%d-%d", os.TempDir(), os.Getpid(), c15seq)
+		err = os.Mkdir(dir, 0o755)
 		if err != nil {
 			panic(err)
 		}
